@@ -300,6 +300,13 @@ def run_session(scenario, policy, workdir, clients='scripted', faults=None, max_
     r.conns = [(c.client_label, bytes(c.log_s2c), bytes(c.log_c2s), c.server_closed, c.client_closed)
                for c in S.NET.conns]
     r.outs = outs
+    srv = holder.get('server')
+    r.qmap = {}
+    if srv is not None:
+        from bridge_env import Player
+        for pl in Player:
+            r.qmap[srv.sent_message_queues[pl].label] = 'm2t' + pl.name
+            r.qmap[srv.received_message_queues[pl].label] = 't2m' + pl.name
     try:
         r.log_text = open(path, encoding='utf-8').read()
     except FileNotFoundError:
